@@ -193,8 +193,8 @@ Proof.
   - discriminate.
 Qed.
 
-(* (5) is empty when every map has a key and a mapped type whose copies cannot allocate *)
-Lemma temps_free : forall t, map_ok t = true -> forall v, Forall (fun p => copy_free (fst p) = true) (temps t v).
+(* (5), pinned variant: empty when every map has a key and a mapped type whose copies cannot allocate *)
+Lemma temps_free mc : forall t, map_ok t = true -> forall v, Forall (fun p => copy_free (fst p) = true) (temps mc t v).
 Proof.
   induction t using ty_ind'; intros Hq v; cbn [map_ok] in Hq; try (cbn [temps]; constructor).
   - (* Seq *) cbn [temps]. destruct v; try constructor. destruct (arith_w t); [constructor|].
@@ -212,16 +212,16 @@ Proof.
     apply andb_prop in Hq. destruct Hq as [Hc1 Hc2]. cbn [temps].
     destruct v; try constructor.
     assert (Hz : Forall (fun p => copy_free (fst p) = true)
-                        (leaf_zip (repeat (pairT t1 t2 (temps t1) (temps t2)) (length l)) l)).
+                        (leaf_zip (repeat (pairT mc t1 t2 (temps mc t1) (temps mc t2)) (length l)) l)).
     { apply leaf_zip_Forall, Forall_repeat. intro x. unfold pairT. destruct x as [| | |l0|]; try constructor.
       apply Forall_app. split.
-      - destruct l0 as [|e1 [|e2 [|e3 l0]]]; repeat constructor; assumption.
+      - destruct mc; [|constructor]. destruct l0 as [|e1 [|e2 [|e3 l0]]]; repeat constructor; assumption.
       - apply leaf_zip_Forall. repeat constructor; auto. }
     destruct (arith_w t1); [destruct (arith_w t2); [constructor | exact Hz] | exact Hz].
 Qed.
 
-Lemma stmt_temps_free : forall ts, forallb map_ok ts = true -> forall vs,
-  Forall (fun p => copy_free (fst p) = true) (stmt_temps ts vs).
+Lemma stmt_temps_free mc : forall ts, forallb map_ok ts = true -> forall vs,
+  Forall (fun p => copy_free (fst p) = true) (stmt_temps mc ts vs).
 Proof.
   intros ts Hq vs. unfold stmt_temps. apply leaf_zip_Forall.
   induction ts as [|t ts IH]; cbn [map]; [constructor|].
@@ -229,12 +229,47 @@ Proof.
   constructor; [intro v; now apply temps_free | auto].
 Qed.
 
-(* one pass over listed arguments allocates nothing by itself *)
-Lemma listed_no_pass_alloc ts vs e : forallb no_excluded ts = true -> forallb map_ok ts = true ->
-  pass_allocs e ts vs = [].
+(* (5), repaired variant: the codecs visit the members of a map element in place; there is no
+   temporary, whatever the types and the value, at any nesting depth *)
+Lemma leaf_zip_nil : forall fs, Forall (fun f : leafF => forall v, f v = []) fs -> forall l, leaf_zip fs l = [].
+Proof.
+  induction 1 as [|f fs Hf _ IH]; intros l; destruct l as [|x l]; cbn [leaf_zip]; try reflexivity.
+  now rewrite Hf, IH.
+Qed.
+
+Lemma temps_repaired : forall t v, temps false t v = [].
+Proof.
+  induction t using ty_ind'; intro v; cbn [temps]; try reflexivity.
+  - (* Seq *) destruct v; try reflexivity. destruct (arith_w t); [reflexivity|].
+    apply leaf_zip_nil, Forall_repeat. exact IHt.
+  - (* FwdList *) destruct v; try reflexivity. apply leaf_zip_nil, Forall_repeat. exact IHt.
+  - (* Arr *) destruct v; try reflexivity. destruct (arith_w t); [reflexivity|].
+    apply leaf_zip_nil, Forall_repeat. exact IHt.
+  - (* Opt *) destruct v as [| | | |[x|]]; try reflexivity. apply IHt.
+  - (* Pair *) unfold pairL. destruct v; try reflexivity. apply leaf_zip_nil. repeat constructor; assumption.
+  - (* Tuple *) destruct v; try reflexivity. apply leaf_zip_nil.
+    induction H as [|t ts Ht _ IH]; cbn [map]; constructor; auto.
+  - (* MapLike *) destruct v; try reflexivity.
+    assert (Hz : leaf_zip (repeat (pairT false t1 t2 (temps false t1) (temps false t2)) (length l)) l = []).
+    { apply leaf_zip_nil, Forall_repeat. intro x. unfold pairT. destruct x as [| | |l0|]; try reflexivity.
+      cbn [app]. apply leaf_zip_nil. repeat constructor; assumption. }
+    destruct (arith_w t1); [destruct (arith_w t2); [reflexivity | exact Hz] | exact Hz].
+Qed.
+
+Lemma stmt_temps_repaired ts vs : stmt_temps false ts vs = [].
+Proof.
+  unfold stmt_temps. apply leaf_zip_nil.
+  induction ts as [|t ts IH]; cbn [map]; constructor; [apply temps_repaired | exact IH].
+Qed.
+
+(* one pass over listed arguments allocates nothing by itself: in the repaired variant always, in the
+   pinned variant when the maps are as [map_ok] says *)
+Lemma listed_no_pass_alloc mc ts vs e : forallb no_excluded ts = true -> (mc = true -> forallb map_ok ts = true) ->
+  pass_allocs mc e ts vs = [].
 Proof.
   intros H1 H2. unfold pass_allocs. rewrite (listed_no_leaf_alloc ts vs e H1). cbn [app].
-  apply flat_map_nil. eapply Forall_impl; [|apply (stmt_temps_free ts H2 vs)].
+  destruct mc; [|now rewrite stmt_temps_repaired].
+  apply flat_map_nil. eapply Forall_impl; [|apply (stmt_temps_free true ts (H2 eq_refl) vs)].
   intros p Hp. unfold temp_alloc. now rewrite Hp.
 Qed.
 
@@ -296,7 +331,7 @@ Proof.
 Qed.
 
 (* ------------------------------------------------------------------ the log step *)
-Lemma log_step_total cf s ts vs dyn : reserved (snd (log_step cf s ts vs dyn)) = stmt_total ts vs dyn.
+Lemma log_step_total mc cf s ts vs dyn : reserved (snd (log_step mc cf s ts vs dyn)) = stmt_total ts vs dyn.
 Proof.
   unfold log_step, stmt_total. destruct (register cf s) as [s0 a0].
   pose proof (size_pass_size (t_cache s0) ts vs) as Hs.
@@ -312,7 +347,7 @@ Proof.
   destruct (size_zip (map size ts) vs) as [s c]. destruct dyn; reflexivity.
 Qed.
 
-Lemma log_step_wf cf s ts vs dyn : iv_wf (t_cache s) -> iv_wf (t_cache (fst (log_step cf s ts vs dyn))).
+Lemma log_step_wf mc cf s ts vs dyn : iv_wf (t_cache s) -> iv_wf (t_cache (fst (log_step mc cf s ts vs dyn))).
 Proof.
   intro W. unfold log_step. pose proof (register_wf cf s W) as W0.
   destruct (register cf s) as [s0 a0]. cbn [fst] in W0.
@@ -321,7 +356,7 @@ Proof.
   destruct (reserve cf (t_node s0) _) as [[nd r] a2]. destruct r; exact W1.
 Qed.
 
-Lemma log_step_reg cf s ts vs dyn : t_reg (fst (log_step cf s ts vs dyn)) = true.
+Lemma log_step_reg mc cf s ts vs dyn : t_reg (fst (log_step mc cf s ts vs dyn)) = true.
 Proof.
   unfold log_step. destruct (register cf s) as [s0 a0].
   destruct (size_pass (t_cache s0) ts vs) as [[sz c1] a1].
@@ -329,16 +364,16 @@ Proof.
 Qed.
 
 (* C11, modelled part, general form: the statement's cached lengths fit the *current* capacity
-   of the size cache (which is at least the inline one) *)
-Theorem steady_no_alloc_cap : forall cf s ts vs dyn,
+   of the size cache (which is at least the inline one); [map_ok] is needed by the pinned variant only *)
+Theorem steady_no_alloc_cap_gen : forall mc cf s ts vs dyn,
   t_reg s = true -> iv_wf (t_cache s) ->
   N.of_nat (stmt_cached ts vs) <= iv_cap (t_cache s) ->
   fits (t_node s) (stmt_total ts vs dyn) = true ->
-  forallb no_excluded ts = true -> forallb map_ok ts = true ->
-  allocs (snd (log_step cf s ts vs dyn)) = [] /\ res (snd (log_step cf s ts vs dyn)) = LEnqueued /\
-  iv_cap (t_cache (fst (log_step cf s ts vs dyn))) = iv_cap (t_cache s).
+  forallb no_excluded ts = true -> (mc = true -> forallb map_ok ts = true) ->
+  allocs (snd (log_step mc cf s ts vs dyn)) = [] /\ res (snd (log_step mc cf s ts vs dyn)) = LEnqueued /\
+  iv_cap (t_cache (fst (log_step mc cf s ts vs dyn))) = iv_cap (t_cache s).
 Proof.
-  intros cf s ts vs dyn Hr W Hc Hf Hl Hm. unfold log_step. rewrite (register_registered cf s Hr).
+  intros mc cf s ts vs dyn Hr W Hc Hf Hl Hm. unfold log_step. rewrite (register_registered cf s Hr).
   destruct (size_pass_no_alloc (t_cache s) ts vs W Hc) as [Ha Hcap].
   pose proof (size_pass_size (t_cache s) ts vs) as Hs.
   destruct (size_pass (t_cache s) ts vs) as [[sz c1] a1]. cbn [fst snd] in *. subst sz a1.
@@ -347,20 +382,44 @@ Proof.
   cbn [allocs res fst snd t_cache]. rewrite !listed_no_pass_alloc by assumption. auto.
 Qed.
 
-Theorem steady_no_alloc : forall cf s ts vs dyn,
+(* repaired variant: no hypothesis about the maps *)
+Theorem steady_no_alloc_cap : forall cf s ts vs dyn,
+  t_reg s = true -> iv_wf (t_cache s) ->
+  N.of_nat (stmt_cached ts vs) <= iv_cap (t_cache s) ->
+  fits (t_node s) (stmt_total ts vs dyn) = true ->
+  forallb no_excluded ts = true ->
+  allocs (snd (log_step false cf s ts vs dyn)) = [] /\ res (snd (log_step false cf s ts vs dyn)) = LEnqueued /\
+  iv_cap (t_cache (fst (log_step false cf s ts vs dyn))) = iv_cap (t_cache s).
+Proof.
+  intros cf s ts vs dyn Hr W Hc Hf Hl. apply steady_no_alloc_cap_gen; auto. discriminate.
+Qed.
+
+(* pinned variant *)
+Theorem steady_no_alloc_cap_pinned : forall cf s ts vs dyn,
+  t_reg s = true -> iv_wf (t_cache s) ->
+  N.of_nat (stmt_cached ts vs) <= iv_cap (t_cache s) ->
+  fits (t_node s) (stmt_total ts vs dyn) = true ->
+  forallb no_excluded ts = true -> forallb map_ok ts = true ->
+  allocs (snd (log_step true cf s ts vs dyn)) = [] /\ res (snd (log_step true cf s ts vs dyn)) = LEnqueued /\
+  iv_cap (t_cache (fst (log_step true cf s ts vs dyn))) = iv_cap (t_cache s).
+Proof.
+  intros cf s ts vs dyn Hr W Hc Hf Hl Hm. apply steady_no_alloc_cap_gen; auto.
+Qed.
+
+Theorem steady_no_alloc_gen : forall mc cf s ts vs dyn,
   t_reg s = true -> iv_wf (t_cache s) ->
   N.of_nat (stmt_cached ts vs) <= INLINE_CAP ->
   fits (t_node s) (stmt_total ts vs dyn) = true ->
-  forallb no_excluded ts = true -> forallb map_ok ts = true ->
-  allocs (snd (log_step cf s ts vs dyn)) = [] /\ res (snd (log_step cf s ts vs dyn)) = LEnqueued.
+  forallb no_excluded ts = true -> (mc = true -> forallb map_ok ts = true) ->
+  allocs (snd (log_step mc cf s ts vs dyn)) = [] /\ res (snd (log_step mc cf s ts vs dyn)) = LEnqueued.
 Proof.
-  intros cf s ts vs dyn Hr W Hc Hf Hl Hm.
-  destruct (steady_no_alloc_cap cf s ts vs dyn Hr W) as (A & B & _); auto.
+  intros mc cf s ts vs dyn Hr W Hc Hf Hl Hm.
+  destruct (steady_no_alloc_cap_gen mc cf s ts vs dyn Hr W) as (A & B & _); auto.
   destruct W as [W1 _]. lia.
 Qed.
 
 (* every state a thread reaches has a well-formed size cache *)
-Lemma t_step_wf cf s o : iv_wf (t_cache s) -> iv_wf (t_cache (fst (t_step cf s o))).
+Lemma t_step_wf mc cf s o : iv_wf (t_cache s) -> iv_wf (t_cache (fst (t_step mc cf s o))).
 Proof.
   intro W. destruct o as [|ts vs dyn|cap|]; cbn [t_step].
   - pose proof (register_wf cf s W) as W0. destruct (register cf s) as [s1 a]. exact W0.
@@ -371,27 +430,71 @@ Proof.
   - destruct (t_reg s); exact W.
 Qed.
 
-Lemma t_run_wf cf : forall ops s, iv_wf (t_cache s) -> iv_wf (t_cache (fst (t_run cf s ops))).
+Lemma t_run_wf mc cf : forall ops s, iv_wf (t_cache s) -> iv_wf (t_cache (fst (t_run mc cf s ops))).
 Proof.
   induction ops as [|o ops IH]; intros s W; cbn [t_run]; [exact W|].
-  pose proof (t_step_wf cf s o W) as W1. destruct (t_step cf s o) as [s1 out]. cbn [fst] in W1.
-  specialize (IH s1 W1). destruct (t_run cf s1 ops) as [s2 outs]. exact IH.
+  pose proof (t_step_wf mc cf s o W) as W1. destruct (t_step mc cf s o) as [s1 out]. cbn [fst] in W1.
+  specialize (IH s1 W1). destruct (t_run mc cf s1 ops) as [s2 outs]. exact IH.
 Qed.
 
-Lemma reachable_wf cf s : reachable cf s -> iv_wf (t_cache s).
+Lemma reachable_wf mc cf s : reachable mc cf s -> iv_wf (t_cache s).
 Proof. intros [ops ->]. apply t_run_wf. exact iv_wf_init. Qed.
 
-(* C11_steady_no_alloc over every state a thread can reach *)
+(* C11_steady_no_alloc over every state a thread can reach: repaired variant (no hypothesis about
+   the maps) and pinned variant *)
 Theorem steady_no_alloc_reachable : forall cf s ts vs dyn,
-  reachable cf s -> t_reg s = true ->
+  reachable false cf s -> t_reg s = true ->
+  N.of_nat (stmt_cached ts vs) <= INLINE_CAP ->
+  fits (t_node s) (stmt_total ts vs dyn) = true ->
+  forallb no_excluded ts = true ->
+  allocs (snd (log_step false cf s ts vs dyn)) = [] /\ res (snd (log_step false cf s ts vs dyn)) = LEnqueued.
+Proof.
+  intros cf s ts vs dyn Hre Hr Hc Hf Hl.
+  apply steady_no_alloc_gen; auto; [now apply reachable_wf with false cf | discriminate].
+Qed.
+
+Theorem steady_no_alloc_reachable_pinned : forall cf s ts vs dyn,
+  reachable true cf s -> t_reg s = true ->
   N.of_nat (stmt_cached ts vs) <= INLINE_CAP ->
   fits (t_node s) (stmt_total ts vs dyn) = true ->
   forallb no_excluded ts = true -> forallb map_ok ts = true ->
-  allocs (snd (log_step cf s ts vs dyn)) = [] /\ res (snd (log_step cf s ts vs dyn)) = LEnqueued.
-Proof. intros cf s ts vs dyn Hre Hr. apply steady_no_alloc; [exact Hr | now apply reachable_wf with cf]. Qed.
+  allocs (snd (log_step true cf s ts vs dyn)) = [] /\ res (snd (log_step true cf s ts vs dyn)) = LEnqueued.
+Proof.
+  intros cf s ts vs dyn Hre Hr Hc Hf Hl Hm.
+  apply steady_no_alloc_gen; auto. now apply reachable_wf with true cf.
+Qed.
+
+(* the variant changes what a step allocates, never the state it leaves: the threads of both
+   variants reach the same states *)
+Lemma log_step_state_variant mc cf s ts vs dyn :
+  fst (log_step mc cf s ts vs dyn) = fst (log_step false cf s ts vs dyn) /\
+  res (snd (log_step mc cf s ts vs dyn)) = res (snd (log_step false cf s ts vs dyn)) /\
+  fmts (snd (log_step mc cf s ts vs dyn)) = fmts (snd (log_step false cf s ts vs dyn)).
+Proof.
+  unfold log_step. destruct (register cf s) as [s0 a0].
+  destruct (size_pass (t_cache s0) ts vs) as [[sz c1] a1].
+  destruct (reserve cf (t_node s0) _) as [[nd r] a2]. destruct r; auto.
+Qed.
+
+Lemma t_step_state_variant mc cf s o : fst (t_step mc cf s o) = fst (t_step false cf s o).
+Proof. destruct o; cbn [t_step]; try reflexivity. apply log_step_state_variant. Qed.
+
+Lemma t_run_state_variant mc cf : forall ops s, fst (t_run mc cf s ops) = fst (t_run false cf s ops).
+Proof.
+  induction ops as [|o ops IH]; intro s; cbn [t_run]; [reflexivity|].
+  pose proof (t_step_state_variant mc cf s o) as H1.
+  destruct (t_step mc cf s o) as [s1 out]. destruct (t_step false cf s o) as [s1' out']. cbn [fst] in H1. subst s1'.
+  specialize (IH s1). destruct (t_run mc cf s1 ops) as [s2 outs]. destruct (t_run false cf s1 ops) as [s2' outs'].
+  exact IH.
+Qed.
+
+Lemma reachable_variant mc cf s : reachable mc cf s <-> reachable false cf s.
+Proof.
+  split; intros [ops ->]; exists ops; [apply t_run_state_variant | symmetry; apply t_run_state_variant].
+Qed.
 
 (* a thread is registered after its first log call or preallocate(), and stays so *)
-Lemma t_step_reg_mono cf s o : t_reg s = true -> t_reg (fst (t_step cf s o)) = true.
+Lemma t_step_reg_mono mc cf s o : t_reg s = true -> t_reg (fst (t_step mc cf s o)) = true.
 Proof.
   intro H. destruct o as [|ts vs dyn|cap|]; cbn [t_step].
   - rewrite (register_registered cf s H). exact H.
@@ -401,18 +504,18 @@ Proof.
   - rewrite H. reflexivity.
 Qed.
 
-Lemma registered_after_first cf s :
-  t_reg (fst (t_step cf s OPre)) = true /\ forall ts vs dyn, t_reg (fst (t_step cf s (OLog ts vs dyn))) = true.
+Lemma registered_after_first mc cf s :
+  t_reg (fst (t_step mc cf s OPre)) = true /\ forall ts vs dyn, t_reg (fst (t_step mc cf s (OLog ts vs dyn))) = true.
 Proof.
   split; [|intros; apply log_step_reg].
   cbn [t_step]. unfold register. destruct (t_reg s) eqn:E; cbn [fst]; [exact E | reflexivity].
 Qed.
 
 (* non-vacuity: the first call does allocate *)
-Theorem first_call_allocates : forall cf s ts vs dyn, t_reg s = false ->
-  In ACtx (allocs (snd (log_step cf s ts vs dyn))) /\ In ACtx (allocs (snd (t_step cf s OPre))).
+Theorem first_call_allocates : forall mc cf s ts vs dyn, t_reg s = false ->
+  In ACtx (allocs (snd (log_step mc cf s ts vs dyn))) /\ In ACtx (allocs (snd (t_step mc cf s OPre))).
 Proof.
-  intros cf s ts vs dyn H. split.
+  intros mc cf s ts vs dyn H. split.
   - unfold log_step. rewrite (register_fresh cf s H).
     destruct (size_pass _ ts vs) as [[sz c1] a1].
     destruct (reserve cf _ _) as [[nd r] a2]. destruct r; cbn [allocs snd app]; left; reflexivity.
@@ -420,12 +523,12 @@ Proof.
 Qed.
 
 (* more cached lengths than the capacity of the size cache: the call allocates *)
-Theorem over_capacity_allocates : forall cf s ts vs dyn,
+Theorem over_capacity_allocates : forall mc cf s ts vs dyn,
   t_reg s = true -> iv_wf (t_cache s) -> needs_clear ts = true ->
   iv_cap (t_cache s) < N.of_nat (stmt_cached ts vs) ->
-  exists newcap, In (AIvGrow newcap) (allocs (snd (log_step cf s ts vs dyn))).
+  exists newcap, In (AIvGrow newcap) (allocs (snd (log_step mc cf s ts vs dyn))).
 Proof.
-  intros cf s ts vs dyn Hr W Hn Hc. unfold log_step. rewrite (register_registered cf s Hr).
+  intros mc cf s ts vs dyn Hr W Hn Hc. unfold log_step. rewrite (register_registered cf s Hr).
   destruct (size_pass_alloc (t_cache s) ts vs W Hn Hc) as [nc Hin].
   destruct (size_pass (t_cache s) ts vs) as [[sz c1] a1]. cbn [snd] in Hin.
   destruct (reserve cf _ _) as [[nd r] a2]. exists nc.
@@ -433,13 +536,13 @@ Proof.
 Qed.
 
 (* the record does not fit the current node of an unbounded queue: a node is allocated *)
-Theorem no_fit_grows : forall cf s ts vs dyn,
+Theorem no_fit_grows : forall mc cf s ts vs dyn,
   t_reg s = true -> c_unbounded cf = true ->
   fits (t_node s) (stmt_total ts vs dyn) = false ->
   c_max cf <? grow_cap 64 (n_cap (t_node s) * 2) (stmt_total ts vs dyn) = false ->
-  exists cap, In (ANode cap) (allocs (snd (log_step cf s ts vs dyn))).
+  exists cap, In (ANode cap) (allocs (snd (log_step mc cf s ts vs dyn))).
 Proof.
-  intros cf s ts vs dyn Hr Hu Hf Hm. unfold log_step. rewrite (register_registered cf s Hr).
+  intros mc cf s ts vs dyn Hr Hu Hf Hm. unfold log_step. rewrite (register_registered cf s Hr).
   pose proof (size_pass_size (t_cache s) ts vs) as Hs.
   destruct (size_pass (t_cache s) ts vs) as [[sz c1] a1]. cbn [fst] in Hs. subst sz.
   fold (stmt_total ts vs dyn).
@@ -450,11 +553,11 @@ Proof.
 Qed.
 
 (* a bounded queue never allocates a node, whatever the record size *)
-Theorem bounded_never_grows : forall cf s ts vs dyn, c_unbounded cf = false -> t_reg s = true ->
-  forall a, In a (allocs (snd (log_step cf s ts vs dyn))) ->
+Theorem bounded_never_grows : forall mc cf s ts vs dyn, c_unbounded cf = false -> t_reg s = true ->
+  forall a, In a (allocs (snd (log_step mc cf s ts vs dyn))) ->
   match a with ANode _ | AShrinkNode _ | AThrowMsg | ACtx => False | _ => True end.
 Proof.
-  intros cf s ts vs dyn Hb Hr a. unfold log_step. rewrite (register_registered cf s Hr).
+  intros mc cf s ts vs dyn Hb Hr a. unfold log_step. rewrite (register_registered cf s Hr).
   destruct (size_pass (t_cache s) ts vs) as [[sz c1] a1] eqn:Esp.
   pose proof (reserve_bounded cf (t_node s) (HEADER_SIZE + sz + dyn_size dyn) Hb) as Hz.
   destruct (reserve cf (t_node s) _) as [[nd r] a2]. cbn [snd] in Hz. subst a2.
@@ -467,7 +570,7 @@ Proof.
       destruct (iv_push_all l c1') as [c2 al]. cbn [snd] in *. intro Hin. apply in_app_or in Hin.
       destruct Hin as [Hin|Hin]; [destruct b; [destruct Hin as [<-|[]]; eauto | destruct Hin] | auto]. }
     specialize (G pushed c0). destruct (iv_push_all pushed c0) as [c1' al]. inversion Esp; subst. exact G. }
-  assert (Hl : forall e x, In x (pass_allocs e ts vs) ->
+  assert (Hl : forall e x, In x (pass_allocs mc e ts vs) ->
                            match x with AUserCopy _ _ | APathString _ | ATempCopy _ _ => True | _ => False end).
   { intros e x Hin. unfold pass_allocs in Hin. apply in_app_or in Hin. destruct Hin as [Hin|Hin];
       [| apply in_flat_map in Hin; destruct Hin as (p & _ & Hin); unfold temp_alloc in Hin;
@@ -479,7 +582,7 @@ Proof.
     - destruct v; cbn in Hin; try contradiction. destruct e; cbn in Hin; try contradiction.
       destruct Hin as [<-|[]]. exact I. }
   intro Hin.
-  assert (Hcases : In a a1 \/ In a (pass_allocs false ts vs) \/ In a (pass_allocs true ts vs)).
+  assert (Hcases : In a a1 \/ In a (pass_allocs mc false ts vs) \/ In a (pass_allocs mc true ts vs)).
   { destruct r; cbn [allocs snd] in Hin; rewrite !in_app_iff in Hin; cbn [In] in Hin; tauto. }
   destruct Hcases as [H1|[H1|H1]].
   - destruct (Ha1 a H1) as [n ->]. exact I.
@@ -488,14 +591,14 @@ Proof.
 Qed.
 
 (* ------------------------------------------------------------------ where formatting runs *)
-Theorem format_on_backend : forall cf s ts vs dyn,
-  Forall (fun e => e = (Caller, Direct)) (frontend_fmt_events cf s ts vs dyn) /\
-  (forallb (fun t => negb (has_direct t)) ts = true -> frontend_fmt_events cf s ts vs dyn = []) /\
+Theorem format_on_backend : forall mc cf s ts vs dyn,
+  Forall (fun e => e = (Caller, Direct)) (frontend_fmt_events mc cf s ts vs dyn) /\
+  (forallb (fun t => negb (has_direct t)) ts = true -> frontend_fmt_events mc cf s ts vs dyn = []) /\
   (forall t, In t ts -> In (Backend, t) (backend_fmt_events ts)).
 Proof.
-  intros cf s ts vs dyn.
-  assert (Hf : fmts (snd (log_step cf s ts vs dyn)) = flat_map leaf_fmt (stmt_leaves ts vs) ++ flat_map leaf_fmt (stmt_leaves ts vs)
-               \/ fmts (snd (log_step cf s ts vs dyn)) = flat_map leaf_fmt (stmt_leaves ts vs)).
+  intros mc cf s ts vs dyn.
+  assert (Hf : fmts (snd (log_step mc cf s ts vs dyn)) = flat_map leaf_fmt (stmt_leaves ts vs) ++ flat_map leaf_fmt (stmt_leaves ts vs)
+               \/ fmts (snd (log_step mc cf s ts vs dyn)) = flat_map leaf_fmt (stmt_leaves ts vs)).
   { unfold log_step. destruct (register cf s) as [s0 a0].
     destruct (size_pass (t_cache s0) ts vs) as [[sz c1] a1].
     destruct (reserve cf (t_node s0) _) as [[nd r] a2]. destruct r; cbn [fmts snd]; auto. }
@@ -524,19 +627,45 @@ Proof. repeat split; try reflexivity. intros t H. destruct t; try discriminate. 
 Definition ex_bounded : cfg := {| c_unbounded := false; c_dropping := true; c_init := 8192; c_max := 0 |}.
 Definition ex_unbounded : cfg := {| c_unbounded := true; c_dropping := true; c_init := 2048; c_max := 65536 |}.
 Definition cstr (n : nat) : val := VB (repeat 97 n).
-(* the state after preallocate() *)
-Definition after_pre (cf : cfg) : tstate := fst (t_step cf (t_init cf) OPre).
+(* the state after preallocate() (the same in both variants) *)
+Definition after_pre (cf : cfg) : tstate := fst (t_step false cf (t_init cf) OPre).
 
-(* a nested statement with most kinds (C04's non-vacuity example with its std::map<std::string, ..> keyed
-   by an integer instead and without its non-trivially-copyable argument) *)
+(* a nested statement with most kinds (C04's non-vacuity example without its non-trivially-copyable
+   argument): its std::map<std::string, std::array<char[3], 2>> holds a 20-byte key (beyond SSO) *)
 Definition ex11_ts : list ty :=
+  [ Arith 4; CStr; CharArr 3; Str;
+    Vec (Opt CStr);
+    MapLike KMap Str (Arr 2 (CharArr 3));
+    FwdList Direct;
+    Tuple [Enum 1; Pair StrView Ptr; Seq KSet (Arith 2)];
+    CStr; DeferredPOD 8 ].
+Definition ex11_vs : list val :=
+  [ VB [1; 2; 3; 4]; VB [104; 105; 0; 120]; VB [97; 98; 99]; VB (repeat 66 40);
+    VL [VO (Some (VB [122])); VO None; VO (Some VNull)];
+    VL [VL [VB (repeat 75 20); VL [VB [97; 0; 99]; VB [100; 101; 102]]]];
+    VL [VB [85; 49]; VB []];
+    VL [VB [9]; VL [VB [115; 118]; VB [1; 0; 0; 0; 0; 0; 0; 0]]; VL [VB [1; 0]; VB [2; 0]]];
+    VNull; VB [1; 2; 3; 4; 5; 6; 7; 8] ].
+
+Example steady_no_alloc_nonvacuous :
+  reachable false ex_unbounded (after_pre ex_unbounded) /\ t_reg (after_pre ex_unbounded) = true /\
+  wt_zip (map wt ex11_ts) ex11_vs /\
+  stmt_cached ex11_ts ex11_vs = 10%nat /\
+  fits (t_node (after_pre ex_unbounded)) (stmt_total ex11_ts ex11_vs true) = true /\
+  forallb no_excluded ex11_ts = true /\ forallb map_ok ex11_ts = false /\ existsb has_direct ex11_ts = true /\
+  allocs (snd (log_step false ex_unbounded (after_pre ex_unbounded) ex11_ts ex11_vs true)) = [].
+Proof. split; [exists [OPre]; reflexivity | split; [reflexivity | split; [cbn; repeat split | vm_compute; repeat split]]]. Qed.
+
+(* pinned variant: the same statement with the map keyed by an integer instead (copy-free key and
+   mapped type) satisfies every hypothesis of the pinned statement *)
+Definition ex11p_ts : list ty :=
   [ Arith 4; CStr; CharArr 3; Str;
     Vec (Opt CStr);
     MapLike KMap (Arith 2) (Arr 2 (CharArr 3));
     FwdList Direct;
     Tuple [Enum 1; Pair StrView Ptr; Seq KSet (Arith 2)];
     CStr; DeferredPOD 8 ].
-Definition ex11_vs : list val :=
+Definition ex11p_vs : list val :=
   [ VB [1; 2; 3; 4]; VB [104; 105; 0; 120]; VB [97; 98; 99]; VB (repeat 66 40);
     VL [VO (Some (VB [122])); VO None; VO (Some VNull)];
     VL [VL [VB [7; 0]; VL [VB [97; 0; 99]; VB [100; 101; 102]]]];
@@ -544,46 +673,48 @@ Definition ex11_vs : list val :=
     VL [VB [9]; VL [VB [115; 118]; VB [1; 0; 0; 0; 0; 0; 0; 0]]; VL [VB [1; 0]; VB [2; 0]]];
     VNull; VB [1; 2; 3; 4; 5; 6; 7; 8] ].
 
-Example steady_no_alloc_nonvacuous :
-  reachable ex_unbounded (after_pre ex_unbounded) /\ t_reg (after_pre ex_unbounded) = true /\
-  wt_zip (map wt ex11_ts) ex11_vs /\
-  stmt_cached ex11_ts ex11_vs = 10%nat /\
-  fits (t_node (after_pre ex_unbounded)) (stmt_total ex11_ts ex11_vs true) = true /\
-  forallb no_excluded ex11_ts = true /\ forallb map_ok ex11_ts = true /\ existsb has_direct ex11_ts = true /\
-  allocs (snd (log_step ex_unbounded (after_pre ex_unbounded) ex11_ts ex11_vs true)) = [].
+Example steady_no_alloc_nonvacuous_pinned :
+  reachable true ex_unbounded (after_pre ex_unbounded) /\ t_reg (after_pre ex_unbounded) = true /\
+  wt_zip (map wt ex11p_ts) ex11p_vs /\
+  stmt_cached ex11p_ts ex11p_vs = 10%nat /\
+  fits (t_node (after_pre ex_unbounded)) (stmt_total ex11p_ts ex11p_vs true) = true /\
+  forallb no_excluded ex11p_ts = true /\ forallb map_ok ex11p_ts = true /\ existsb has_direct ex11p_ts = true /\
+  allocs (snd (log_step true ex_unbounded (after_pre ex_unbounded) ex11p_ts ex11p_vs true)) = [].
 Proof. split; [exists [OPre]; reflexivity | split; [reflexivity | split; [cbn; repeat split | vm_compute; repeat split]]]. Qed.
 
-(* the full-strength claim "standard containers of strings" is false of the faithful model: a
-   std::map<uint32_t, std::string> (listed kinds only, no cached length, fits) copies every mapped
-   string into a temporary pair, in the size pass and again in the encode pass (finding C11-F1) *)
+(* finding C11-F1 (fixed by the repair), kept as a statement about the PINNED variant: there the
+   full-strength claim "standard containers of strings" is false: a std::map<uint32_t, std::string>
+   (listed kinds only, no cached length, fits) copies every mapped string into a temporary pair, in
+   the size pass and again in the encode pass.  The repaired variant allocates nothing on the same call. *)
 Definition rf11_ts : list ty := [MapLike KMap (Arith 4) Str].
 Definition rf11_vs : list val := [VL [VL [VB [1; 0; 0; 0]; VB (repeat 97 16)]]].
 Theorem steady_no_alloc_refuted_map :
   let s := after_pre ex_bounded in
-  reachable ex_bounded s /\ t_reg s = true /\ wt_zip (map wt rf11_ts) rf11_vs /\
+  reachable true ex_bounded s /\ t_reg s = true /\ wt_zip (map wt rf11_ts) rf11_vs /\
   stmt_cached rf11_ts rf11_vs = 0%nat /\ fits (t_node s) (stmt_total rf11_ts rf11_vs false) = true /\
   forallb no_excluded rf11_ts = true /\ forallb map_ok rf11_ts = false /\
-  allocs (snd (log_step ex_bounded s rf11_ts rf11_vs false)) = [ATempCopy Str (VB (repeat 97 16)); ATempCopy Str (VB (repeat 97 16))].
+  allocs (snd (log_step true ex_bounded s rf11_ts rf11_vs false)) = [ATempCopy Str (VB (repeat 97 16)); ATempCopy Str (VB (repeat 97 16))] /\
+  allocs (snd (log_step false ex_bounded s rf11_ts rf11_vs false)) = [].
 Proof. split; [exists [OPre]; reflexivity | split; [reflexivity | split; [cbn; repeat split | vm_compute; repeat split]]]. Qed.
 
 (* twelve C strings: no allocation; a 13th cached length allocates (capacity 12 -> 24), also when
    the thirteen lengths come from ONE argument, a std::vector<char const*> of 13 elements *)
 Theorem twelve_fit_thirteen_allocate :
   let s := after_pre ex_bounded in
-  allocs (snd (log_step ex_bounded s (repeat CStr 12) (repeat (cstr 20) 12) false)) = [] /\
-  allocs (snd (log_step ex_bounded s (repeat CStr 13) (repeat (cstr 20) 13) false)) = [AIvGrow 24] /\
+  allocs (snd (log_step false ex_bounded s (repeat CStr 12) (repeat (cstr 20) 12) false)) = [] /\
+  allocs (snd (log_step false ex_bounded s (repeat CStr 13) (repeat (cstr 20) 13) false)) = [AIvGrow 24] /\
   forallb no_excluded [Vec CStr] = true /\ cached_lengths (Vec CStr) (VL (repeat (cstr 3) 13)) = 13%nat /\
   fits (t_node s) (stmt_total [Vec CStr] [VL (repeat (cstr 3) 13)] false) = true /\
-  allocs (snd (log_step ex_bounded s [Vec CStr] [VL (repeat (cstr 3) 13)] false)) = [AIvGrow 24] /\
-  allocs (snd (log_step ex_bounded s [Vec CStr] [VL (repeat (cstr 3) 12)] false)) = [].
+  allocs (snd (log_step false ex_bounded s [Vec CStr] [VL (repeat (cstr 3) 13)] false)) = [AIvGrow 24] /\
+  allocs (snd (log_step false ex_bounded s [Vec CStr] [VL (repeat (cstr 3) 12)] false)) = [].
 Proof. vm_compute. repeat split. Qed.
 
 (* clear() keeps the capacity: the same 13-length statement does not allocate a second time *)
 Theorem grown_cache_is_kept :
-  let s1 := fst (log_step ex_bounded (after_pre ex_bounded) (repeat CStr 13) (repeat (cstr 20) 13) false) in
+  let s1 := fst (log_step false ex_bounded (after_pre ex_bounded) (repeat CStr 13) (repeat (cstr 20) 13) false) in
   iv_cap (t_cache s1) = 24 /\
-  allocs (snd (log_step ex_bounded s1 (repeat CStr 13) (repeat (cstr 20) 13) false)) = [] /\
-  iv_cap (t_cache (fst (log_step ex_bounded s1 [CStr] [cstr 1] false))) = 24.
+  allocs (snd (log_step false ex_bounded s1 (repeat CStr 13) (repeat (cstr 20) 13) false)) = [] /\
+  iv_cap (t_cache (fst (log_step false ex_bounded s1 [CStr] [cstr 1] false))) = 24.
 Proof. vm_compute. repeat split. Qed.
 
 (* exact fit / miss by one on the unbounded queue: after preallocate() the 2048-byte node is filled
@@ -592,37 +723,37 @@ Proof. vm_compute. repeat split. Qed.
    shrink() allocates a node *)
 Definition fill (n : N) : top := OLog [StrView] [VB (repeat 120 (N.to_nat n))] false.
 Theorem fit_boundary :
-  let s := fst (t_run ex_unbounded (t_init ex_unbounded) [OPre; fill (2048 - 100 - 36)]) in
+  let s := fst (t_run false ex_unbounded (t_init ex_unbounded) [OPre; fill (2048 - 100 - 36)]) in
   stmt_total [StrView] [VB (repeat 120 64)] false = 100 /\
   fits (t_node s) 100 = true /\ fits (t_node s) 101 = false /\
-  allocs (snd (log_step ex_unbounded s [StrView] [VB (repeat 120 64)] false)) = [] /\
-  allocs (snd (log_step ex_unbounded s [StrView] [VB (repeat 120 65)] false)) = [ANode 4096] /\
-  allocs (snd (log_step ex_unbounded (fst (t_step ex_unbounded s ODrain)) [StrView] [VB (repeat 120 65)] false)) = [] /\
-  allocs (snd (t_step ex_unbounded s (OShrink 1024))) = [AShrinkNode 1024] /\
-  allocs (snd (t_step ex_unbounded s (OShrink 2048))) = [] /\
+  allocs (snd (log_step false ex_unbounded s [StrView] [VB (repeat 120 64)] false)) = [] /\
+  allocs (snd (log_step false ex_unbounded s [StrView] [VB (repeat 120 65)] false)) = [ANode 4096] /\
+  allocs (snd (log_step false ex_unbounded (fst (t_step false ex_unbounded s ODrain)) [StrView] [VB (repeat 120 65)] false)) = [] /\
+  allocs (snd (t_step false ex_unbounded s (OShrink 1024))) = [AShrinkNode 1024] /\
+  allocs (snd (t_step false ex_unbounded s (OShrink 2048))) = [] /\
   (* the same miss on the bounded queue: dropped, no allocation *)
-  (let b := fst (t_run ex_bounded (t_init ex_bounded) [OPre; fill (8192 - 100 - 36)]) in
-   allocs (snd (log_step ex_bounded b [StrView] [VB (repeat 120 65)] false)) = [] /\
-   res (snd (log_step ex_bounded b [StrView] [VB (repeat 120 65)] false)) = LDropped).
+  (let b := fst (t_run false ex_bounded (t_init ex_bounded) [OPre; fill (8192 - 100 - 36)]) in
+   allocs (snd (log_step false ex_bounded b [StrView] [VB (repeat 120 65)] false)) = [] /\
+   res (snd (log_step false ex_bounded b [StrView] [VB (repeat 120 65)] false)) = LDropped).
 Proof. vm_compute. repeat split. Qed.
 
 (* the excluded kinds are visible as allocation sources *)
 Theorem excluded_kinds_allocate :
   let s := after_pre ex_bounded in
-  allocs (snd (log_step ex_bounded s [DeferredAligned 40 8] [VB (repeat 1 40)] false)) = [AUserCopy 40 8] /\
-  allocs (snd (log_step ex_bounded s [Path] [VB (repeat 47 30)] false)) = [APathString 30; APathString 30] /\
-  allocs (snd (log_step ex_bounded s [Vec (Opt Path)] [VL [VO (Some (VB (repeat 47 30)))]] false)) = [APathString 30; APathString 30].
+  allocs (snd (log_step false ex_bounded s [DeferredAligned 40 8] [VB (repeat 1 40)] false)) = [AUserCopy 40 8] /\
+  allocs (snd (log_step false ex_bounded s [Path] [VB (repeat 47 30)] false)) = [APathString 30; APathString 30] /\
+  allocs (snd (log_step false ex_bounded s [Vec (Opt Path)] [VL [VO (Some (VB (repeat 47 30)))]] false)) = [APathString 30; APathString 30].
 Proof. vm_compute. repeat split. Qed.
 
 (* a record larger than the maximum capacity of the unbounded queue: QuillError (its message is built on the caller) *)
 Example oversize_throws :
-  let out := snd (log_step ex_unbounded (after_pre ex_unbounded) [StrView] [VB (repeat 120 (N.to_nat 70000))] false) in
+  let out := snd (log_step false ex_unbounded (after_pre ex_unbounded) [StrView] [VB (repeat 120 (N.to_nat 70000))] false) in
   allocs out = [AThrowMsg] /\ res out = LThrow.
 Proof. vm_compute. repeat split. Qed.
 
 (* formatting: a statement with a direct-format argument formats exactly that argument on the caller, twice *)
 Example direct_formats_on_caller :
-  frontend_fmt_events ex_bounded (after_pre ex_bounded) [Arith 4; Direct; DeferredPOD 8; Vec Direct]
+  frontend_fmt_events false ex_bounded (after_pre ex_bounded) [Arith 4; Direct; DeferredPOD 8; Vec Direct]
     [VB [1; 0; 0; 0]; VB [65]; VB (repeat 0 8); VL [VB [66]; VB [67]]] false
   = repeat (Caller, Direct) 6.
 Proof. vm_compute. reflexivity. Qed.
